@@ -110,6 +110,8 @@ def detect(prop, n, checks):
         sh("git -C /repo checkout -- .")
         # evidence files describe the unchanged tree: put them back
         sh("git -C /verif checkout -- evidence")
+        # ... and the regenerated declarations were translated from the patched source
+        sh("git -C /verif checkout -- coq/gen")
     return res
 
 
